@@ -17,7 +17,7 @@ use std::str::FromStr;
 use temporal_rs::error::ErrorKind;
 use temporal_rs::options::{ArithmeticOverflow, Disambiguation, DisplayCalendar, DisplayOffset, DisplayTimeZone, OffsetDisambiguation, ToStringRoundingOptions, Unit};
 use temporal_rs::parsers::Precision;
-use temporal_rs::{Calendar, Duration, Instant, PlainDate, PlainDateTime, PlainMonthDay, PlainTime, PlainYearMonth, ZonedDateTime};
+use temporal_rs::{Calendar, Duration, Instant, PlainDate, PlainDateTime, PlainMonthDay, PlainTime, PlainYearMonth, TimeZone, ZonedDateTime};
 
 /// the calendars the crate supports with their CLDR / BCP 47 identifiers (index 0 = ISO)
 pub const CALS: [(&str, K); 18] = [
@@ -511,6 +511,28 @@ pub fn check_case(c: &Case) -> Outcome {
                 Err(e) => bail!(o, "C11/zoned/format-error", &want, err_str(&e)),
             };
             chk!(o, text == want, "C11/zoned/text", want, text);
+            // the parts of the text survive their own parsers: the time zone of a zoned string is its annotation (the
+            // offset only when there is none; neither -> RangeError), the calendar is the annotation or ISO
+            {
+                let want_tz: Result<TimeZone, ()> = if c.tz_show != TzShow::Never {
+                    Ok(tz.clone())
+                } else if c.off_show == OffShow::Auto {
+                    TimeZone::try_from_identifier_str(&fmt::offset_minutes(roff / 60)).map_err(|_| ())
+                } else {
+                    Err(())
+                };
+                match (TimeZone::try_from_str(&text), &want_tz) {
+                    (Ok(g), Ok(w)) => chk!(o, g == *w, "C11/zoned/timezone-of-the-text", format!("{w:?}"), format!("{g:?}")),
+                    (Err(e), Err(())) => chk!(o, e.kind() == ErrorKind::Range, "C11/zoned/timezone-of-the-text/error-kind", "RangeError", err_str(&e)),
+                    (Ok(g), Err(())) => bail!(o, "C11/zoned/timezone-of-the-text/accepted", "RangeError (no offset, no annotation)", format!("{g:?}")),
+                    (Err(e), Ok(w)) => bail!(o, "C11/zoned/timezone-of-the-text/error", format!("{w:?}"), err_str(&e)),
+                }
+                let want_cal = if cs != CalShow::Never || id == "iso8601" { id } else { "iso8601" };
+                match Calendar::from_str(&text) {
+                    Ok(g) => chk!(o, g.identifier() == want_cal, "C11/zoned/calendar-of-the-text", want_cal, g.identifier()),
+                    Err(e) => bail!(o, "C11/zoned/calendar-of-the-text/error", want_cal, err_str(&e)),
+                }
+            }
             if c.tz_show == TzShow::Never {
                 // without the annotation the text is not a zoned date-time string
                 return o.class("lossy:zone-dropped");
